@@ -281,6 +281,29 @@ def gen_tap(R, cfg=None):
     return tap
 
 
+def make_resumption_of(R, conn, orig):
+    """turn `conn` into an abbreviated handshake that resumes `orig` (TLS <= 1.2): same version, suite and master
+    secret, fresh randoms"""
+    if orig["proto"] != "tls" or conn["proto"] != "tls" or orig["ver"] == T.TLS13:
+        return False
+    conn["ver"], conn["suite"] = orig["ver"], orig["suite"]
+    conn["etm"] = bool(orig.get("etm"))
+    conn["resume"] = True
+    conn["sid_len"] = 32
+    conn["sh_ext"] = "rand" if conn["etm"] else conn.get("sh_ext", "rand")
+    if conn["suite"] not in conn.get("offered", []):
+        conn["offered"] = [conn["suite"]] + list(conn.get("offered", []))
+    orig.setdefault("master_seed", R.bits(60))
+    conn["master_seed"] = orig["master_seed"]
+    conn.pop("early_data_side", None)
+    for r in conn.get("recs", []):
+        r.pop("pad", None)
+    for k in ("srv_msgs", "srv_group", "cli_msgs", "cli_group", "nst", "shaped", "tickets"):
+        conn.pop(k, None)
+    conn["resumes"] = orig["id"]
+    return True
+
+
 def gen_http_conn(R, cid, used, port=443, v6=False, **epkw):
     c, s = gen_endpoints(R.fork("ep"), v6, used, server_port=port, **epkw)
     msgs = [[R.choice("cs") if i else "c", R.range(1, 1200)] for i in range(R.range(1, 5))]
@@ -337,6 +360,8 @@ def gen_tls_world(R, cfg, nconn=None, with_noise=False):
     conns = []
     for j in range(n):
         c = gen_tls_conn(R.fork("conn", j), j, c2, used)
+        if conns and R.chance(cfg.get("resumption_pct", 20)):
+            make_resumption_of(R.fork("resume", j), c, R.choice(conns))
         if R.chance(cfg.get("seg_pct", 70)):
             apply_segmentation(R.fork("seg", j), c, net=cfg.get("net") if R.chance(cfg.get("net_pct", 0)) else None)
         conns.append(c)
